@@ -428,4 +428,63 @@ def rule_f(ctx):
     return r
 
 
-RULES = [rule_a, rule_b, rule_c, rule_d, rule_e, rule_f]
+def _derives_from_find_import(body, op, depth=0):
+    """Does this operand hold (a canonicalised form of) the path returned by find_import, and nothing else?"""
+    if depth > 8 or op.place is None:
+        return False
+    ap = an.trace_operand(body, op, through_calls=False)
+    if ap.root[0] == "call":
+        if ap.root[1].endswith("Visitor::find_import"):
+            return True
+        c = body.call_at(ap.root[2])
+        if c is None:
+            return False
+        cand = []
+        for a in c.args:
+            if a.place is None:
+                continue
+            r0 = an.trace_operand(body, a)
+            if r0.root[0] == "arg" and r0.proj and r0.proj[0] == "options":
+                continue  # the Fs / options receiver
+            cand.append(a)
+        return bool(cand) and all(_derives_from_find_import(body, a, depth + 1) for a in cand)
+    if ap.root[0] == "local":
+        defs = body.defs_of(ap.root[1])
+        ok = bool(defs)
+        for bb, i, d in defs:
+            if isinstance(d, dict) and d["k"] in ("use", "ref"):
+                src = d["op"] if d["k"] == "use" else {"k": "copy", "p": d["p"]}
+                ok = ok and _derives_from_find_import(body, Operand(src), depth + 1)
+            else:
+                ok = False
+        return ok
+    return False
+
+
+def rule_g(ctx):
+    r = RuleResult("C13-g", "the import cache cannot bypass the search: every key used on Visitor.import_cache / files_seen is the path find_import returned (canonicalised)")
+    prog = ctx.prog()
+    n = 0
+    for b in prog.bodies.values():
+        if b.crate != "grass_compiler":
+            continue
+        for c in b.calls():
+            if not c.args or c.args[0].place is None or len(c.args) < 2:
+                continue
+            a0 = an.trace_operand(b, c.args[0])
+            if a0.root[0] != "arg" or not a0.proj or a0.proj[-1] not in ("import_cache", "files_seen"):
+                continue
+            if not b.local_ty(a0.root[1]).endswith("evaluate::visitor::Visitor<'_>") and "Visitor" not in b.local_ty(a0.root[1]):
+                continue
+            n += 1
+            key = "%s|%s.%s" % (b.root, a0.proj[-1], an.tail2(c.callee).split("::")[-1])
+            if _derives_from_find_import(b, c.args[1]):
+                r.ok(key)
+            else:
+                r.violate(key, "%s accesses Visitor.%s with a key (%r) that is not the path returned by find_import: a cached stylesheet can be returned without "
+                          "searching relative to the importing file and then the load paths" % (b.path, a0.proj[-1], an.trace_operand(b, c.args[1])), c.loc())
+    r.floor("import cache / files_seen accesses", n, 4)
+    return r
+
+
+RULES = [rule_a, rule_b, rule_c, rule_d, rule_e, rule_f, rule_g]
